@@ -10,10 +10,11 @@ fails=$(grep -E "^test result" /tmp/confirm_suite_$$.log | awk '{s+=$6} END {pri
 passes=$(grep -E "^test result" /tmp/confirm_suite_$$.log | awk '{s+=$4} END {print s+0}')
 echo "suite with mutation: passed=$passes failed=$fails"
 cp "$MD/demo.rs" tests/zz_demo.rs
-cargo test --offline --test zz_demo > /tmp/confirm_demo1_$$.log 2>&1; rc1=$?
+# DEMO_RUSTFLAGS / DEMO_FEATURES: how the demo (not the suite) is built, e.g. the callbag_verif hooks or --features tracing
+RUSTFLAGS="$DEMO_RUSTFLAGS" cargo test --offline $DEMO_FEATURES --test zz_demo > /tmp/confirm_demo1_$$.log 2>&1; rc1=$?
 echo "demo with mutation: rc=$rc1"
 git checkout -q -- src
-cargo test --offline --test zz_demo > /tmp/confirm_demo2_$$.log 2>&1; rc2=$?
+RUSTFLAGS="$DEMO_RUSTFLAGS" cargo test --offline $DEMO_FEATURES --test zz_demo > /tmp/confirm_demo2_$$.log 2>&1; rc2=$?
 echo "demo without mutation: rc=$rc2"
 rm -f tests/zz_demo.rs
 git checkout -q -- .
